@@ -119,6 +119,17 @@ package server
 //@   ghost-at entry : ghost_scanok := 0
 //@   ghost-at after call Manifests #1 : ghost_scanok := ite(result.1 == nil, 1, 0)
 //@   ensures result.1 == nil ==> ghost_scanok == 1
+// (coverage extension) canonicalisation only reads the store
+//@   assert-at call os.Remove : false
+//@   assert-at call os.RemoveAll : false
+//@   assert-at call os.Rename : false
+//@   assert-at call (*Manifest).Remove : false
+//@   assert-at call RemoveLayers : false
+//@   assert-at call (*Layer).Remove : false
+//@   assert-at call deleteUnusedLayers : false
+//@   assert-at call PruneLayers : false
+//@   assert-at call PruneDirectory : false
+//@   assert-at call WriteManifest : false
 
 // ---- (2) ORDER OF EFFECTS (C04 + C12) --------------------------------------------------------
 // The file-system library functions (os.Remove, os.Rename, os.Stat, os.CreateTemp, ...) get no
@@ -170,6 +181,14 @@ package server
 //@   assert-at call os.RemoveAll : false
 //@   assert-at call os.Rename : false
 //@   assert-at call os.Truncate : false
+// (coverage extension) it touches layers only, one scan each: no manifest is unlinked, no prune is
+// started, and an empty digest (a manifest without config) is never handed on.
+//@   assert-at call (*Layer).Remove : arg0.Digest != ""
+//@   assert-at call (*Manifest).Remove : false
+//@   assert-at call deleteUnusedLayers : false
+//@   assert-at call PruneLayers : false
+//@   assert-at call PruneDirectory : false
+//@   assert-at call WriteManifest : false
 
 // DeleteHandler: layers are touched only after Manifest.Remove returned nil for the same manifest
 // (so the manifest being deleted no longer protects - and no longer needs - its layers, and a
@@ -325,6 +344,10 @@ package server
 //@   assert-at call deleteUnusedLayers : false
 //@   assert-at call os.Remove : false
 //@   assert-at call os.RemoveAll : false
+// (coverage extension) lock order (verif_contracts_lockorder.go): Serve is the process's entry into the
+// server - it is entered with no runner lock held, which is what Scheduler.Run (contract in
+// verif_contracts_sched2.go) requires of its caller.
+//@   requires !heldany(runnerRef.refMu)
 
 // createModel: every layer is in the blob store before the manifest is written (all calls that
 // create or drop layers come before WriteManifest; none after), nil is returned only after
@@ -376,6 +399,12 @@ package server
 //@   assert-at call (*Manifest).Remove : false
 //@   assert-at call (*Layer).Remove : false
 //@   assert-at call deleteUnusedLayers : false
+// (coverage extension) no removal / prune entry point is reachable from here (the sanctioned ones are listed at GetModel below)
+//@   assert-at call PruneLayers : false
+//@   assert-at call PruneDirectory : false
+//@   assert-at call fixBlobs : false
+//@   assert-at call os.Rename : false
+//@   assert-at call os.WriteFile : false
 
 // removeLayer (create with an overriding template/system/...): blobs are dropped only through
 // Layer.Remove (scan first).
@@ -385,6 +414,11 @@ package server
 //@   assert-at call os.RemoveAll : false
 //@   assert-at call os.Rename : false
 //@   assert-at call os.Truncate : false
+// (coverage extension) only layers of the overridden media type are handed to Layer.Remove and dropped
+// from the list: a flipped or dropped media-type test would remove (scan permitting) and unlist the
+// model's other layers - the weights of the model being created.
+//@   assert-at call (*Layer).Remove : layer.MediaType == mediatype && arg0.Digest == layer.Digest
+//@   ensures result ==> layer.MediaType == mediatype
 
 // The scan in Layer.Remove only sees manifests on disk, not the layer list of the model being
 // created. So inside one setter the overridden layers are dropped BEFORE the replacement is
@@ -510,6 +544,15 @@ package server
 //@   assert-at call os.Create : false
 //@   assert-at call os.WriteFile : false
 //@   assert-at call os.Rename : false
+// (coverage extension) no removal / prune entry point is reachable from here (the sanctioned ones are listed at GetModel below)
+//@   assert-at call os.Remove : false
+//@   assert-at call os.RemoveAll : false
+//@   assert-at call (*Manifest).Remove : false
+//@   assert-at call RemoveLayers : false
+//@   assert-at call (*Layer).Remove : false
+//@   assert-at call deleteUnusedLayers : false
+//@   assert-at call PruneLayers : false
+//@   assert-at call PruneDirectory : false
 
 //@ func (*Server).CreateHandler
 //@   ghost-at entry : ghost_canon := 0
@@ -523,6 +566,18 @@ package server
 //@   ghost-at after call getExistingName #1 : ghost_cm := strid(result.0.Model)
 //@   ghost-at after call getExistingName #1 : ghost_ct := strid(result.0.Tag)
 //@   assert-at call CreateHandler$1 : ghost_canon == 1 && strid(name.Host) == ghost_ch && strid(name.Namespace) == ghost_cn && strid(name.Model) == ghost_cm && strid(name.Tag) == ghost_ct
+// (coverage extension) no removal / prune entry point is reachable from here (the sanctioned ones are listed at GetModel below)
+//@   assert-at call os.Remove : false
+//@   assert-at call os.RemoveAll : false
+//@   assert-at call os.Rename : false
+//@   assert-at call os.WriteFile : false
+//@   assert-at call WriteManifest : false
+//@   assert-at call (*Manifest).Remove : false
+//@   assert-at call RemoveLayers : false
+//@   assert-at call (*Layer).Remove : false
+//@   assert-at call deleteUnusedLayers : false
+//@   assert-at call PruneLayers : false
+//@   assert-at call PruneDirectory : false
 
 //@ func (*Server).PullHandler
 //@   ghost-at entry : ghost_canon := 0
@@ -536,6 +591,18 @@ package server
 //@   ghost-at after call getExistingName #1 : ghost_cm := strid(result.0.Model)
 //@   ghost-at after call getExistingName #1 : ghost_ct := strid(result.0.Tag)
 //@   assert-at call PullHandler$1 : ghost_canon == 1 && strid(name.Host) == ghost_ch && strid(name.Namespace) == ghost_cn && strid(name.Model) == ghost_cm && strid(name.Tag) == ghost_ct
+// (coverage extension) no removal / prune entry point is reachable from here (the sanctioned ones are listed at GetModel below)
+//@   assert-at call os.Remove : false
+//@   assert-at call os.RemoveAll : false
+//@   assert-at call os.Rename : false
+//@   assert-at call os.WriteFile : false
+//@   assert-at call WriteManifest : false
+//@   assert-at call (*Manifest).Remove : false
+//@   assert-at call RemoveLayers : false
+//@   assert-at call (*Layer).Remove : false
+//@   assert-at call deleteUnusedLayers : false
+//@   assert-at call PruneLayers : false
+//@   assert-at call PruneDirectory : false
 
 // The pull goroutine hands PullModel the display form of exactly that captured name.
 //@ func (*Server).PullHandler$1
@@ -545,6 +612,18 @@ package server
 //@   ghost-at after call DisplayShortest #1 : ghost_shown := 1
 //@   ghost-at after call DisplayShortest #1 : ghost_sid := strid(result)
 //@   assert-at call PullModel : ghost_shown == 1 && strid(arg1) == ghost_sid
+// (coverage extension) no removal / prune entry point is reachable from here (the sanctioned ones are listed at GetModel below)
+//@   assert-at call os.Remove : false
+//@   assert-at call os.RemoveAll : false
+//@   assert-at call os.Rename : false
+//@   assert-at call os.WriteFile : false
+//@   assert-at call WriteManifest : false
+//@   assert-at call (*Manifest).Remove : false
+//@   assert-at call RemoveLayers : false
+//@   assert-at call (*Layer).Remove : false
+//@   assert-at call deleteUnusedLayers : false
+//@   assert-at call PruneLayers : false
+//@   assert-at call PruneDirectory : false
 
 // quantizeLayer (create with a quantization request) works on a temp file next to the source blob;
 // the source blob itself - the base model's layer when creating FROM a model - is only read: the one
@@ -558,3 +637,275 @@ package server
 //@   assert-at call os.Create : false
 //@   assert-at call os.WriteFile : false
 //@   assert-at call llama.Quantize #1 : arg0 == blob && arg1 == temp.Name() && blob == blobpath(layer.Digest)
+
+// ==== COVERAGE EXTENSION (C04 / C12): functions the store operations call that were trusted (extern)  ====
+// ==== or not under contract at all; their bodies are verified (props/C04.json, C12.json `functions`) ====
+
+// removeLayer (was: `extern func removeLayer` above, now replaced by this verified contract): the
+// filtering is slices.DeleteFunc over the caller's list with the closure below; the function itself
+// touches no file.
+//@ func removeLayer
+//@   assert-at call DeleteFunc #1 : arg0 == layers
+//@   assert-at call os.Remove : false
+//@   assert-at call os.RemoveAll : false
+//@   assert-at call os.Rename : false
+//@   assert-at call (*Layer).Remove : false
+//@   assert-at call deleteUnusedLayers : false
+
+// createLink / copyFile (create from safetensors files: the uploaded blobs are linked - or, where
+// symlinks are refused, copied - into a scratch directory for the converter). src is a BLOB of the
+// store, dst a path in the scratch directory: everything destructive (the os.Remove that clears the
+// way, the truncating os.Create of the copy fallback) happens to dst, never to src; swapping the two
+// arguments anywhere deletes or truncates a blob that manifests reference.
+//@ func createLink
+//@   assert-at call os.MkdirAll #1 : arg0 == fpdir(dst)
+//@   assert-at call os.Remove : arg0 == dst
+//@   assert-at call os.Symlink : arg0 == src && arg1 == dst
+//@   assert-at call copyFile : arg0 == src && arg1 == dst
+//@   assert-at call os.RemoveAll : false
+//@   assert-at call os.Rename : false
+//@   assert-at call os.Create : false
+//@   assert-at call os.WriteFile : false
+//@   assert-at call os.Truncate : false
+//@ func copyFile
+//@   ghost-at entry : ghost_srcopen := 0
+//@   assert-at call os.Open #1 : arg0 == src
+//@   ghost-at after call os.Open #1 : ghost_srcopen := ite(result.1 == nil, 1, 0)
+//@   assert-at call os.Create : arg0 == dst && ghost_srcopen == 1
+//@   ghost-at entry : ghost_dstmade := 0
+//@   ghost-at after call os.Create #1 : ghost_dstmade := ite(result.1 == nil, 1, 0)
+//@   assert-at call io.Copy #1 : ghost_srcopen == 1 && ghost_dstmade == 1
+//@   assert-at call io.Copy #1 : tagis(arg0, "*os.File") && tagis(arg1, "*os.File")
+//@   assert-at call os.Remove : false
+//@   assert-at call os.RemoveAll : false
+//@   assert-at call os.Rename : false
+//@   assert-at call os.OpenFile : false
+//@   assert-at call os.WriteFile : false
+//@   assert-at call os.Truncate : false
+
+// convertFromSafetensors: the scratch directory is a fresh MkdirTemp directory below the models
+// directory and the only tree ever removed is that directory; each link is made from the blob of the
+// digest the request names to a path BELOW the scratch directory, and only for a relative path that
+// fs.ValidPath accepted (no "..", not rooted: createLink removes whatever is at dst, so
+// "../blobs/sha256-..." would delete a blob) and that the os.Root of the scratch directory did not
+// refuse; the converter's output goes to a temp file in the scratch directory and enters the store
+// only through NewLayer. Loop 1: range over the request's files (map).
+//@ func convertFromSafetensors
+//@   assume-at call GetBlobsPath : ErrInvalidDigestFormat != nil   -- package-level errors.New value, assigned once at package init, never reassigned
+//@   ghost-at entry : ghost_tmpmade := 0
+//@   ghost-at entry : ghost_valid := 0
+//@   ghost-at entry : ghost_rootok := 0
+//@   assert-at call os.MkdirTemp #1 : arg0 == envconfig.Models()
+//@   ghost-at after call os.MkdirTemp #1 : ghost_tmpmade := ite(result.1 == nil, 1, 0)
+//@   assert-at call os.RemoveAll : ghost_tmpmade == 1 && arg0 == tmpDir
+//@   assert-at call os.OpenRoot #1 : arg0 == tmpDir
+//@   ghost-at after call os.OpenRoot #1 : ghost_rootok := ite(result.1 == nil, 1, 0)
+//@   ghost-at after call ValidPath #1 : ghost_valid := ite(result, 1, 0)
+//@   assert-at call ValidPath #1 : arg0 == fp
+//@   assert-at call createLink : ghost_tmpmade == 1 && ghost_rootok == 1 && ghost_valid == 1
+//@   assert-at call createLink : arg0 == blobPath && blobPath == blobpath(digest) && arg1 == fpjoin2(tmpDir, fp)
+//@   assert-at call os.CreateTemp #1 : arg0 == tmpDir
+//@   assert-at call NewLayer #1 : tagis(arg0, "*os.File")
+//@   assert-at call os.Remove : false
+//@   assert-at call os.Rename : false
+//@   assert-at call os.Create : false
+//@   assert-at call os.WriteFile : false
+//@   assert-at call (*Layer).Remove : false
+//@   assert-at call deleteUnusedLayers : false
+
+// Layer.Open only reads: the file opened is the blob the layer's digest names.
+//@ func (*Layer).Open
+//@   assume-at call GetBlobsPath : ErrInvalidDigestFormat != nil   -- package-level errors.New value, assigned once at package init, never reassigned
+//@   assert-at call os.Open #1 : arg0 == blobpath(l.Digest)
+//@   assert-at call os.Create : false
+//@   assert-at call os.OpenFile : false
+//@   assert-at call os.Remove : false
+
+// createConfigLayer / setLicense: new layers enter the store only through NewLayer; nothing is
+// removed; the config lists the digest of every layer, in order (RootFS.DiffIDs).
+//@ func createConfigLayer
+//@   loop 1 invariant len(digests) == len(layers) && forall j int :: 0 <= j && j <= rangeindex ==> digests[j] == layers[j].Digest
+//@   assert-at call Encode #1 : len(config.RootFS.DiffIDs) == len(layers) && forall j int :: 0 <= j && j < len(layers) ==> config.RootFS.DiffIDs[j] == layers[j].Digest
+//@   ensures result.1 == nil ==> result.0 != nil
+//@   assert-at call os.Remove : false
+//@   assert-at call os.RemoveAll : false
+//@   assert-at call (*Layer).Remove : false
+//@   assert-at call removeLayer : false
+//@ func setLicense
+//@   assert-at call os.Remove : false
+//@   assert-at call os.RemoveAll : false
+//@   assert-at call (*Layer).Remove : false
+//@   assert-at call removeLayer : false
+
+// ggufLayers (create from uploaded GGUF blobs): the file parsed is the blob of the digest; a layer is
+// recorded for the uploaded blob itself only under that digest (NewLayerFromLayer: exists), every
+// other layer goes through NewLayer; nothing is removed or rewritten.
+//@ func ggufLayers
+//@   assume-at call GetBlobsPath : ErrInvalidDigestFormat != nil   -- package-level errors.New value, assigned once at package init, never reassigned
+//@   assert-at call os.Open #1 : arg0 == blobPath && blobPath == blobpath(digest)
+//@   assert-at call NewLayerFromLayer : arg0 == digest
+//@   assert-at call os.Remove : false
+//@   assert-at call os.RemoveAll : false
+//@   assert-at call os.Rename : false
+//@   assert-at call os.Create : false
+//@   assert-at call os.OpenFile : false
+//@   assert-at call (*Layer).Remove : false
+
+// ParseModelPath (was: trusted `extern func ParseModelPath` in verif_contracts_c09.go; this verified
+// contract replaces the stub): writes nothing the caller can see; indexing of the split parts is safe.
+//@ spec func pmprest(name string) string = sreplaceall(ite(scontains(name, "://"), name[sindex(name, "://")+3:len(name)], name), "/", "/")
+//@ spec func pmprepo(name string) string = ite(ssplitn(pmprest(name), "/") == 3, ssplitpart(pmprest(name), "/", 2), ite(ssplitn(pmprest(name), "/") == 2, ssplitpart(pmprest(name), "/", 1), ite(ssplitn(pmprest(name), "/") == 1, ssplitpart(pmprest(name), "/", 0), "")))
+//@ func ParseModelPath
+//@   modifies nothing
+// which text ends up in which part (the manifest path of a pull/push is built from these four parts:
+// swapped or shifted parts would write - and later prune against - another model's manifest):
+// scheme = text before "://" (default https); host/namespace/repository from the 3-, 2- or 1-part
+// split at "/" (defaults registry.ollama.ai / library); tag = text after the first ":" of the last part
+// (default latest).
+//@   ensures result.ProtocolScheme == ite(scontains(name, "://"), name[0:sindex(name, "://")], "https")
+//@   ensures result.Registry == ite(ssplitn(pmprest(name), "/") == 3, ssplitpart(pmprest(name), "/", 0), "registry.ollama.ai")
+//@   ensures result.Namespace == ite(ssplitn(pmprest(name), "/") == 3, ssplitpart(pmprest(name), "/", 1), ite(ssplitn(pmprest(name), "/") == 2, ssplitpart(pmprest(name), "/", 0), "library"))
+//@   ensures result.Repository == ite(scontains(pmprepo(name), ":"), pmprepo(name)[0:sindex(pmprepo(name), ":")], pmprepo(name))
+//@   ensures result.Tag == ite(scontains(pmprepo(name), ":"), pmprepo(name)[sindex(pmprepo(name), ":")+1:len(pmprepo(name))], "latest")
+
+// The blob endpoints. HEAD /api/blobs/:digest only looks; POST /api/blobs/:digest stores the request
+// body through NewLayer (temp file, rename to the digest of the bytes actually received) and removes
+// or overwrites nothing - a body that does not match the announced digest ends up under its own
+// digest, never under the announced one.
+//@ func (*Server).HeadBlobHandler
+//@   assume-at call GetBlobsPath : ErrInvalidDigestFormat != nil   -- package-level errors.New value, assigned once at package init, never reassigned
+//@   assert-at call os.Remove : false
+//@   assert-at call os.Create : false
+//@   assert-at call NewLayer : false
+//@ func (*Server).CreateBlobHandler
+//@   assume-at call GetBlobsPath : ErrInvalidDigestFormat != nil   -- package-level errors.New value, assigned once at package init, never reassigned
+//@   assert-at call NewLayer #1 : arg0 == c.Request.Body
+//@   assert-at call os.Remove : false
+//@   assert-at call os.RemoveAll : false
+//@   assert-at call os.Rename : false
+//@   assert-at call os.Create : false
+//@   assert-at call os.OpenFile : false
+//@   assert-at call os.WriteFile : false
+//@   assert-at call (*Layer).Remove : false
+
+// ---- the READ side ("every model that is listed can be shown") and the remaining handlers ----
+// list / show / push / create-from read the store; none of them may remove, rename, truncate or
+// write anything in it, and none may start a prune (the only sanctioned entries to removal are
+// DeleteHandler -> Manifest.Remove / RemoveLayers, the create goroutine -> RemoveLayers, the setters
+// -> removeLayer, PullModel -> deleteUnusedLayers, Serve -> PruneLayers / PruneDirectory). Show opens,
+// for every layer of the manifest, the blob file that GetBlobsPath names for its digest - the same
+// blob name bname(digest) the scans in Layer.Remove / deleteUnusedLayers protect.
+//@ func GetModel
+//@   assume-at call GetBlobsPath : ErrInvalidDigestFormat != nil   -- package-level errors.New value, assigned once at package init, never reassigned
+//@   assert-at call ParseModelPath #1 : arg0 == name
+//@   assert-at call GetManifest #1 : arg0 == mp
+//@   assert-at call os.Open #1 : arg0 == blobpath(manifest.Config.Digest)
+//@   assert-at call os.Remove : false
+//@   assert-at call os.RemoveAll : false
+//@   assert-at call os.Rename : false
+//@   assert-at call os.Create : false
+//@   assert-at call os.OpenFile : false
+//@   assert-at call os.WriteFile : false
+//@   assert-at call os.Truncate : false
+//@   assert-at call (*Layer).Remove : false
+//@   assert-at call RemoveLayers : false
+//@   assert-at call deleteUnusedLayers : false
+//@   assert-at call PruneLayers : false
+//@   assert-at call PruneDirectory : false
+// (safe.nilmap at routes.go:850 `m.Options[k] = v` is NOT claimed here: it fails - see props/C04.json
+// not_decided, suspected defect: show with request options on a model without a params layer; and
+// safe.index at :872 needs tensors.Items() to be a pure accessor, which belongs to fs/ggml)
+//@ func GetModelInfo
+//@   opt safe slice,div,typeassert,makeslice,shift
+//@   ghost-at entry : ghost_canon := 0
+//@   ghost-at after call getExistingName #1 : ghost_canon := ite(result.1 == nil, 1, 0)
+//@   assert-at call GetModel : ghost_canon == 1
+//@   assert-at call ParseNamedManifest : ghost_canon == 1 && arg0 == name
+//@   assert-at call os.Remove : false
+//@   assert-at call os.RemoveAll : false
+//@   assert-at call os.Rename : false
+//@   assert-at call os.Create : false
+//@   assert-at call os.WriteFile : false
+//@   assert-at call (*Manifest).Remove : false
+//@   assert-at call (*Layer).Remove : false
+//@   assert-at call RemoveLayers : false
+//@   assert-at call deleteUnusedLayers : false
+//@   assert-at call PruneLayers : false
+//@   assert-at call PruneDirectory : false
+//@   assert-at call WriteManifest : false
+//@ func (*Server).ShowHandler
+//@   assert-at call os.Remove : false
+//@   assert-at call os.RemoveAll : false
+//@   assert-at call (*Manifest).Remove : false
+//@   assert-at call (*Layer).Remove : false
+//@   assert-at call RemoveLayers : false
+//@   assert-at call deleteUnusedLayers : false
+//@   assert-at call PruneLayers : false
+//@   assert-at call PruneDirectory : false
+//@   assert-at call WriteManifest : false
+// ListHandler lists what the tolerant scan yields (the same scan the removals use: a model that is
+// listed is a model whose layers the scans protect).
+//@ func (*Server).ListHandler
+//@   assert-at call Manifests #1 : arg0 == true
+//@   assert-at call os.Remove : false
+//@   assert-at call os.RemoveAll : false
+//@   assert-at call os.Rename : false
+//@   assert-at call (*Manifest).Remove : false
+//@   assert-at call (*Layer).Remove : false
+//@   assert-at call RemoveLayers : false
+//@   assert-at call deleteUnusedLayers : false
+//@   assert-at call PruneLayers : false
+//@   assert-at call PruneDirectory : false
+//@   assert-at call WriteManifest : false
+//@ func (*Server).PushHandler$1
+//@   ghost-at entry : ghost_canon := 0
+//@   ghost-at after call getExistingName #1 : ghost_canon := ite(result.1 == nil, 1, 0)
+//@   assert-at call PushModel : ghost_canon == 1
+//@   assert-at call os.Remove : false
+//@   assert-at call os.RemoveAll : false
+//@   assert-at call (*Manifest).Remove : false
+//@   assert-at call (*Layer).Remove : false
+//@   assert-at call RemoveLayers : false
+//@   assert-at call deleteUnusedLayers : false
+//@   assert-at call PruneLayers : false
+//@   assert-at call PruneDirectory : false
+//@   assert-at call WriteManifest : false
+// parseFromModel (create FROM an existing model; server/model.go): the base model's layers are taken
+// over by reference - NewLayerFromLayer under the base manifest's own digests (exists-check, no copy,
+// no removal); the base model is pulled only when its manifest does not exist.
+//@ func parseFromModel
+//@   assume-at call GetBlobsPath : ErrInvalidDigestFormat != nil   -- package-level errors.New value, assigned once at package init, never reassigned
+//@   assert-at call ParseNamedManifest : arg0 == name
+//@   assert-at call os.Remove : false
+//@   assert-at call os.RemoveAll : false
+//@   assert-at call os.Rename : false
+//@   assert-at call os.Create : false
+//@   assert-at call os.WriteFile : false
+//@   assert-at call (*Manifest).Remove : false
+//@   assert-at call (*Layer).Remove : false
+//@   assert-at call RemoveLayers : false
+//@   assert-at call deleteUnusedLayers : false
+//@   assert-at call PruneLayers : false
+//@   assert-at call WriteManifest : false
+
+// fixBlobs (outer function; the walk callback fixBlobs$1 is contracted above): it walks exactly the
+// directory it was given (Serve: the blobs directory) and does nothing else to the file system itself.
+//@ func fixBlobs
+//@   assert-at call Walk #1 : arg0 == dir
+//@   assert-at call os.Remove : false
+//@   assert-at call os.RemoveAll : false
+//@   assert-at call os.Rename : false
+//@   assert-at call PruneLayers : false
+//@   assert-at call PruneDirectory : false
+
+// Package initialisation: the sentinel errors the store functions compare against are assigned once,
+// from errors.New (library fact: non-nil), when the package is initialised. This backs the assume-at
+// `ErrInvalidDigestFormat != nil` at the GetBlobsPath call sites (what stays unproved there: that no
+// code reassigns the variable afterwards - grep: the only assignment is the declaration).
+// (the synthetic initialiser returns at once when the package is already initialised - go/ssa's
+// init$guard - so the fact is stated for the one execution in which the initialiser body ran)
+//@ func init
+//@   ghost-at entry : ghost_ran := 0
+//@   ghost-at after call errors.New : ghost_ran := 1
+//@   assume-at after call errors.New : result != nil    -- library fact
+//@   ensures ghost_ran == 1 ==> ErrInvalidDigestFormat != nil && ErrInvalidImageFormat != nil && errDigestMismatch != nil && errInsecureProtocol != nil
